@@ -492,24 +492,110 @@ theorem parseCInt_error (bits : Nat) (a : Arg) (e : PyOut) (h : parseCInt bits a
     · injection h with h; subst h; simp
     · cases h
 
-/-- **C17_ioprio_entry_defined** — with the C-side range check, `cext.proc_ioprio_set` reaches no
-    undefined shift for ANY three Python arguments (ints of any size, or other types). -/
-theorem C17_ioprio_entry_defined (c : ICfg) (hs : c.CSafe) (pid cls data : Arg) :
+/-- translator obligation (round 2): psutil_proc_ioprio_set parses (pid, ioclass, iodata) with the
+    CHECKED unit `i` each, and checks 0 ≤ ioclass ≤ 7, 0 ≤ iodata ≤ 8191 -/
+theorem icfg_units_good : icfg.units = ['i', 'i', 'i'] ∧ icfg.cGuard = some (0, 7) ∧ icfg.cDataGuard = some (0, 8191) := by
+  decide
+
+/-- translator obligation (round 2): EVERY PyArg_ParseTuple call of the Linux build uses only
+    converters from this allow-list — in particular none of the unchecked integer converters
+    `B H I k K` (the Python int is silently reduced modulo 2^width) and no format the translator could
+    not read (`?…`).  A new use must be justified here, parameter by parameter. -/
+theorem parse_formats_good :
+    Gen.C17.parseFormats.all (fun p => p.2.toList.all (fun c =>
+      ['i', 'l', 'L', 'n', 's', 'z', 'y', 'O', 'd', 'f', 'p', '|', ':', '#'].contains c)) = true
+    ∧ Gen.C17.parseFormats.length ≥ 10 := by decide
+
+theorem ioprioSetExt_checked (c : ICfg) (hu : c.units = ['i', 'i', 'i']) (pid cls data : Arg) :
+    ioprioSetExt c pid cls data = ioprioSetExtChecked c pid cls data := by
+  simp [ioprioSetExt, ioprioSetExtChecked, hu, parseUnit]
+
+/-- **C17_ioprio_entry_defined** — with the C-side range check and checked units,
+    `cext.proc_ioprio_set` reaches no undefined shift for ANY three Python arguments (ints of any
+    size, or other types). -/
+theorem C17_ioprio_entry_defined (c : ICfg) (hs : c.CSafe) (hu : c.units = ['i', 'i', 'i']) (pid cls data : Arg) :
     ioprioSetExt c pid cls data ≠ .ub := by
+  rw [ioprioSetExt_checked c hu]
   cases hp : parseCInt 32 pid with
-  | error e => simp only [ioprioSetExt, hp]; exact parseCInt_error _ _ _ hp
+  | error e => simp only [ioprioSetExtChecked, hp]; exact parseCInt_error _ _ _ hp
   | ok p =>
     cases hc : parseCInt 32 cls with
-    | error e => simp only [ioprioSetExt, hp, hc]; exact parseCInt_error _ _ _ hc
+    | error e => simp only [ioprioSetExtChecked, hp, hc]; exact parseCInt_error _ _ _ hc
     | ok cv =>
       cases hdd : parseCInt 32 data with
-      | error e => simp only [ioprioSetExt, hp, hc, hdd]; exact parseCInt_error _ _ _ hdd
-      | ok dv => simp only [ioprioSetExt, hp, hc, hdd]; exact ioprioSetC_defined c hs cv dv
+      | error e => simp only [ioprioSetExtChecked, hp, hc, hdd]; exact parseCInt_error _ _ _ hdd
+      | ok dv => simp only [ioprioSetExtChecked, hp, hc, hdd]; exact ioprioSetC_defined c hs cv dv
+
+/-- **C17_ioprio_applied_is_passed** (round 2) — whatever three Python objects are passed, the value
+    handed to the kernel is built from the ints THE CALLER PASSED: `ioclass` and `iodata` are ints
+    within 0..7 / 0..8191 and the packed word is `(ioclass << 13) | iodata`.  Anything else is an
+    exception — nothing is truncated into range. -/
+theorem C17_ioprio_applied_is_passed (c : ICfg) (hsh : c.shift = 13) (hu : c.units = ['i', 'i', 'i'])
+    (hg : c.cGuard = some (0, 7)) (hd : c.cDataGuard = some (0, 8191)) (pid cls data : Arg) (p : Int)
+    (h : ioprioSetExt c pid cls data = .syscall p) :
+    ∃ cv dv, cls = .int cv ∧ data = .int dv ∧ 0 ≤ cv ∧ cv ≤ 7 ∧ 0 ≤ dv ∧ dv ≤ 8191 ∧ p = orNat (cv * 8192) dv := by
+  have herr : ∀ (a : Arg) (e : PyOut), parseCInt 32 a = .error e → e ≠ .syscall p := by
+    intro a e he
+    cases a with
+    | other => simp [parseCInt] at he; subst he; simp
+    | int v => simp only [parseCInt] at he; split at he <;> simp at he; subst he; simp
+  have hok : ∀ (a : Arg) (v : Int), parseCInt 32 a = .ok v → a = .int v := by
+    intro a v hv
+    cases a with
+    | other => simp [parseCInt] at hv
+    | int w => simp only [parseCInt] at hv; split at hv <;> simp at hv; rw [hv]
+  rw [ioprioSetExt_checked c hu] at h
+  unfold ioprioSetExtChecked at h
+  cases hp : parseCInt 32 pid with
+  | error e => simp only [hp] at h; exact absurd h (herr _ _ hp)
+  | ok pv =>
+    cases hc : parseCInt 32 cls with
+    | error e => simp only [hp, hc] at h; exact absurd h (herr _ _ hc)
+    | ok cv =>
+      cases hdd : parseCInt 32 data with
+      | error e => simp only [hp, hc, hdd] at h; exact absurd h (herr _ _ hdd)
+      | ok dv =>
+        simp only [hp, hc, hdd] at h
+        refine ⟨cv, dv, hok _ _ hc, hok _ _ hdd, ?_⟩
+        simp only [ioprioSetC, hg, hd, inRange, hsh] at h
+        by_cases h1 : 0 ≤ cv ∧ cv ≤ 7
+        · by_cases h2 : 0 ≤ dv ∧ dv ≤ 8191
+          · have hshl := (C17_ioprio_no_overflow cv 0 h1.1 (by omega) (by decide) (by decide)).1
+            have hn : ¬ dv < 0 := by omega
+            simp only [h1.1, h1.2, h2.1, h2.2, decide_true, Bool.and_self, Bool.not_true, Bool.or_self,
+              Bool.false_eq_true, if_false, hshl, hn] at h
+            injection h with h
+            exact ⟨h1.1, h1.2, h2.1, h2.2, h.symm⟩
+          · exfalso
+            have : (decide (0 ≤ dv) && decide (dv ≤ 8191)) = false := by
+              simp only [Bool.and_eq_false_iff, decide_eq_false_iff_not]; omega
+            simp only [this, Bool.not_false, Bool.or_true, if_true] at h
+            cases hh : c.cGuardOSError <;> rw [hh] at h <;> cases h
+        · exfalso
+          have : (decide (0 ≤ cv) && decide (cv ≤ 7)) = false := by
+            simp only [Bool.and_eq_false_iff, decide_eq_false_iff_not]; omega
+          simp only [this, Bool.not_false, Bool.true_or, if_true] at h
+          cases hh : c.cGuardOSError <;> rw [hh] at h <;> cases h
+
+theorem C17_ioprio_applied_is_passed_current (pid cls data : Arg) (p : Int) (h : ioprioSetExt icfg pid cls data = .syscall p) :
+    ∃ cv dv, cls = .int cv ∧ data = .int dv ∧ 0 ≤ cv ∧ cv ≤ 7 ∧ 0 ≤ dv ∧ dv ≤ 8191 ∧ p = orNat (cv * 8192) dv :=
+  C17_ioprio_applied_is_passed icfg (by decide) icfg_units_good.1 icfg_units_good.2.1 icfg_units_good.2.2 pid cls data p h
+
+/-- **counterexample (seeded C17-3)** — with the UNCHECKED unit `I` for ioclass / iodata (and the
+    same range check), `proc_ioprio_set(pid, 2**32 + 2, 4)` is reduced modulo 2³² to class 2, passes
+    the check and (2 << 13) | 4 is APPLIED: a value the caller did not pass.  Also 2**64 + 2,
+    −2**32 + 2, and 2**32 (→ class NONE). -/
+theorem C17_ioprio_unchecked_unit_counterexample :
+    ioprioSetExt { icfg with units := ['i', 'I', 'I'] } (.int 1) (.int (4294967296 + 2)) (.int 4) = .syscall 16388
+    ∧ ioprioSetExt { icfg with units := ['i', 'I', 'I'] } (.int 1) (.int (18446744073709551616 + 2)) (.int 4) = .syscall 16388
+    ∧ ioprioSetExt { icfg with units := ['i', 'I', 'I'] } (.int 1) (.int (-4294967296 + 2)) (.int 4) = .syscall 16388
+    ∧ ioprioSetExt { icfg with units := ['i', 'I', 'I'] } (.int 1) (.int 4294967296) (.int 0) = .syscall 0 := by
+  decide
 
 /-- **C17_ioprio_reach** — which `ioclass` values can reach the shift from
-    `Process.ionice(ioclass, value)`: with either guard (C-side or Python-side) none that makes
-    it undefined, for every int `ioclass` and every `value`. -/
-theorem C17_ioprio_reach (c : ICfg) (hs : c.CSafe) (cls : Int) (value : Option Int) :
+    `Process.ionice(ioclass, value)`: with the C-side guard none that makes it undefined, for
+    every int `ioclass` and every `value`. -/
+theorem C17_ioprio_reach (c : ICfg) (hs : c.CSafe) (hu : c.units = ['i', 'i', 'i']) (cls : Int) (value : Option Int) :
     ioniceSetPy c cls value ≠ .ub := by
   unfold ioniceSetPy
   simp only
@@ -519,10 +605,10 @@ theorem C17_ioprio_reach (c : ICfg) (hs : c.CSafe) (cls : Int) (value : Option I
     · simp
     · split
       · simp
-      · exact C17_ioprio_entry_defined c hs _ _ _
+      · exact C17_ioprio_entry_defined c hs hu _ _ _
 
 theorem C17_ioprio_reach_current (cls : Int) (value : Option Int) : ioniceSetPy icfg cls value ≠ .ub :=
-  C17_ioprio_reach icfg icfg_safe cls value
+  C17_ioprio_reach icfg icfg_safe icfg_units_good.1 cls value
 
 /-- **counterexample (lead L15)** — without a range check on `ioclass`, `ionice(2**18, 0)`
     passes every Python-side test and reaches `262144 << 13`: signed overflow. -/
